@@ -22,7 +22,8 @@ _G = {}
 def gtable():
     """look-alike table of the working tree: (map cp->cp for keys with g(k) != k, image set, keys set, by target)"""
     if not _G:
-        cm = sys.modules['stdnum.util']._char_map
+        import importlib
+        cm = importlib.import_module('stdnum.util')._char_map
         mp = {}
         multi = False
         for k, v in cm.items():
@@ -44,6 +45,7 @@ def gtable():
 
 
 _LEMMAS = {}
+_FACTS = {}
 
 
 def table_lemmas():
@@ -105,6 +107,12 @@ class Chain:
                      self.lws and o.lws, self.rws and o.rws)
 
     def facts(self):
+        k = self.key()
+        if k not in _FACTS:
+            _FACTS[k] = self._facts()
+        return _FACTS[k]
+
+    def _facts(self):
         g = gtable()
         c = (g['image'] if self.mapped else FULL).minus(self.D)
         if self.case:
